@@ -7,6 +7,7 @@
    (hypotheses about the gaps of the axis being refined only), one level at a time; their premises are oracle-checked. *)
 From Coq Require Import ZArith QArith Qabs Qround Qreals List Reals.
 From RV Require Import Base.QB Model.Grid Model.GridGeom Proofs.C13_Grid Proofs.C13_GridGeom Proofs.C13_GridGeomR Proofs.C13_ProbStep.
+From RV Require Import Proofs.Tie_PyLoops Gen.GenTieChain Proofs.Tie_Chain Model.ProbStepLoop Proofs.C13_ProbStepLoop.
 Import ListNotations.
 Open Scope Q_scope.
 
@@ -270,6 +271,88 @@ Example C13_probstep_nonvacuous :
 Proof. exact ps_example. Qed.
 Open Scope Q_scope.
 
+(* ================================================================================================ wave 6
+   The cell helpers of rpylib/grid/spatial.py REGENERATED from the source by py2coq (Gen/GenTieChain.v, rebuilt on every run:
+   CTMCGrid.left_point / right_point (int variant) and CTMCGrid.middle (float, float)) are the hand models Model/Grid.v that
+   the theorems above are about (equalities proved in Proofs/Tie_Chain.v; Python ints are Z in the generated code). *)
+Theorem C13_gen_left_point_is_model : forall xs (k : nat), GenTieChain.left_point xs (Z.of_nat k) = Grid.left_point xs k.
+Proof. exact gen_left_point_eq_model. Qed.
+Theorem C13_gen_right_point_is_model : forall xs (k : nat), GenTieChain.right_point xs (Z.of_nat k) = Grid.right_point xs k.
+Proof. exact gen_right_point_eq_model. Qed.
+Theorem C13_gen_middle_is_model : forall x y, GenTieChain.middle x y = Grid.amid x y.
+Proof. exact gen_middle_eq_model. Qed.
+(* hence the n-level refinement theorem holds for refine driven by the GENERATED middle: any number of refinements of an admissible
+   axis with the middle function translated from the source *)
+Theorem C13_gen_middle_refine_n : forall n xs o h, admissible xs o h ->
+  admissible (refine_axis_n GenTieChain.middle n xs) (2 ^ n * o) (h / inject_Z (2 ^ Z.of_nat n))
+  /\ (forall i, (i < length xs)%nat -> nthq (refine_axis_n GenTieChain.middle n xs) (2 ^ n * i) = nthq xs i)
+  /\ length (refine_axis_n GenTieChain.middle n xs) = (2 ^ n * (length xs - 1) + 1)%nat.
+Proof. exact gen_middle_refine_n. Qed.
+
+(* The two `while True` loops of compute_right_axis / compute_left_axis with EVERY branch (exhaustion exit with its extrapolated last
+   point, regular try branch, bare-except branch incl. "first root found, second raised"), Model/ProbStepLoop.v.  The quadrature test
+   `exhausted` and the root finder `root` (None = raised) are ARBITRARY functions; the only thing asked of the root finder is that a
+   returned root lies strictly beyond the bracket end it started from.  Whenever the loop terminates (fuel: `while True`), the half
+   axis is strictly increasing, starts at h (ends at -h), has at least 2 states, all on its side of the origin. *)
+Theorem C13_probstep_right_loop : forall (exhausted : Q -> bool) (root : Q -> option Q),
+  (forall x y, root x = Some y -> x < y) ->
+  forall fuel h axis, 0 < h -> compute_right_axis exhausted root fuel h = Some axis ->
+  incr axis /\ headq axis = h /\ (2 <= length axis)%nat /\ (forall i, (i < length axis)%nat -> 0 < nthq axis i).
+Proof. exact right_axis_incr. Qed.
+Theorem C13_probstep_left_loop : forall (exhausted : Q -> bool) (root : Q -> option Q),
+  (forall x y, root x = Some y -> y < x) ->
+  forall fuel h axis, 0 < h -> compute_left_axis exhausted root fuel h = Some axis ->
+  incr axis /\ lastq axis = - h /\ (2 <= length axis)%nat /\ (forall i, (i < length axis)%nat -> nthq axis i < 0).
+Proof. exact left_axis_incr. Qed.
+(* CTMCGridProbabilityStep.__init__: whenever both loops terminate, the assembled axis is admissible with pivot len(axis_left) *)
+Theorem C13_probstep_ctor_admissible : forall exl exr rootl rootr fuel h xs o,
+  (forall x y, rootl x = Some y -> y < x) -> (forall x y, rootr x = Some y -> x < y) -> 0 < h ->
+  probstep_axis exl exr rootl rootr fuel h = Some (xs, o) ->
+  admissible xs o h /\ (2 <= o)%nat /\ (o + 3 <= length xs)%nat
+  /\ exists l r, compute_left_axis exl rootl fuel h = Some l /\ compute_right_axis exr rootr fuel h = Some r
+                 /\ xs = l ++ [0] ++ r /\ o = length l.
+Proof. exact probstep_axis_admissible. Qed.
+Example C13_probstep_loop_nonvacuous :
+  (forall x y, lin_root_l (15 # 32) 2 x = Some y -> y < x) /\ (forall x y, lin_root_r (15 # 32) 2 x = Some y -> x < y)
+  /\ option_map (fun p => (map Qred (fst p), snd p))
+       (probstep_axis (lin_exh_l 2 (1 # 4) (1 # 8)) (lin_exh_r 2 (1 # 4) (1 # 8)) (lin_root_l (15 # 32) 2) (lin_root_r (15 # 32) 2) 50 (1 # 4))
+     = Some ([-(109 # 16); -(4 # 1); -(19 # 16); -(1 # 4); 0; 1 # 4; 19 # 16; 17 # 8; 49 # 16], 4%nat)
+  /\ compute_right_axis (lin_exh_r 2 (1 # 4) (1 # 8)) (lin_root_r (15 # 32) 2) 2 (1 # 4) = None.
+Proof. exact probstep_loop_example. Qed.
+
+(* What the gaps carry, with the exhaustion and except branches INSIDE the statement.  F = cumulative jump probability read from the
+   side's first cell boundary (any function), q = p/2.  Specification of the root finder: a returned root y of `root x` lies beyond x
+   and F y - F x == q; a refusal is monotone (no root from x on the bracket [x, 100] => none from further out).  Then the half axis is
+     h, reg_1, ..., reg_n, ext_1, ..., ext_k      (k >= 1)
+   where every regular gap (h, reg_1), (reg_i, reg_i+1) carries EXACTLY the requested probability p = 2q (two root searches of q),
+   and the extrapolated states ext_j continue the axis with one constant spacing 2*d, d > 0.  n = 0 is possible (tail already
+   exhausted at h).  Left twin: the same read from -h leftwards (the code's left loop is not the mirror image of the right loop in the
+   except branch -- different d -- the statement is the same). *)
+Theorem C13_probstep_right_shape : forall (exhausted : Q -> bool) (root : Q -> option Q) (F : Q -> Q) (q : Q),
+  (forall x y, root x = Some y -> x < y) -> (forall x y, root x = Some y -> F y - F x == q) ->
+  (forall x x', root x = None -> x <= x' -> root x' = None) ->
+  forall fuel h axis, 0 < h -> compute_right_axis exhausted root fuel h = Some axis ->
+  exists reg ext d, axis = (h :: reg) ++ ext /\ gaps_F F (2 * q) (h :: reg) /\ ext <> [] /\ 0 < d
+                    /\ gaps_w (2 * d) (lastq (h :: reg) :: ext).
+Proof. exact right_axis_shape. Qed.
+Theorem C13_probstep_left_shape : forall (exhausted : Q -> bool) (root : Q -> option Q) (F : Q -> Q) (q : Q),
+  (forall x y, root x = Some y -> y < x) -> (forall x y, root x = Some y -> F y - F x == q) ->
+  (forall x x', root x = None -> x' <= x -> root x' = None) ->
+  forall fuel h axis, 0 < h -> compute_left_axis exhausted root fuel h = Some axis ->
+  exists reg ext d, axis = rev ext ++ rev reg ++ [- h] /\ gaps_F F (2 * q) (- h :: reg) /\ ext <> [] /\ 0 < d
+                    /\ gaps_w (- (2 * d)) (lastq (- h :: reg) :: ext).
+Proof. exact left_axis_shape. Qed.
+Example C13_probstep_shape_nonvacuous :
+  (forall x y, lin_root_r (15 # 32) 2 x = Some y -> y * (4 # 15) - x * (4 # 15) == 1 # 8)
+  /\ (forall x x', lin_root_r (15 # 32) 2 x = None -> x <= x' -> lin_root_r (15 # 32) 2 x' = None)
+  /\ (forall x y, lin_root_l (15 # 32) 2 x = Some y -> - y * (4 # 15) - - x * (4 # 15) == 1 # 8)
+  /\ (forall x x', lin_root_l (15 # 32) 2 x = None -> x' <= x -> lin_root_l (15 # 32) 2 x' = None)
+  /\ option_map (map Qred) (compute_right_axis (lin_exh_r 2 (1 # 4) (1 # 8)) (lin_root_r (15 # 32) 2) 50 (1 # 4))
+     = Some ((1 # 4 :: [19 # 16]) ++ [17 # 8; 49 # 16])
+  /\ option_map (map Qred) (compute_left_axis (lin_exh_l 2 (1 # 4) (1 # 8)) (lin_root_l (15 # 32) 2) 50 (1 # 4))
+     = Some (rev [-(4 # 1); -(109 # 16)] ++ rev [-(19 # 16)] ++ [-(1 # 4)]).
+Proof. exact lin_shape_example. Qed.
+
 Print Assumptions C13_assembly_admissible.
 Print Assumptions C13_fixed_admissible.
 Print Assumptions C13_fixed_axis.
@@ -305,3 +388,14 @@ Print Assumptions C13_geom_R_nonvacuous.
 Print Assumptions C13_probstep_gaps.
 Print Assumptions C13_probstep_refine.
 Print Assumptions C13_probstep_nonvacuous.
+Print Assumptions C13_gen_left_point_is_model.
+Print Assumptions C13_gen_right_point_is_model.
+Print Assumptions C13_gen_middle_is_model.
+Print Assumptions C13_gen_middle_refine_n.
+Print Assumptions C13_probstep_right_loop.
+Print Assumptions C13_probstep_left_loop.
+Print Assumptions C13_probstep_ctor_admissible.
+Print Assumptions C13_probstep_loop_nonvacuous.
+Print Assumptions C13_probstep_right_shape.
+Print Assumptions C13_probstep_left_shape.
+Print Assumptions C13_probstep_shape_nonvacuous.
